@@ -11,7 +11,7 @@ import (
 
 // VerifC01Route: destination loops of SendAllMatch / SendFirstMatch against per-destination verdicts.
 func VerifC01Route() {
-	nd := verifChoice("ndests", 4)
+	nd := verifChoice("ndests", verifParamInt("max", 3)+1)
 	first := verifBool("firstmatch")
 	var dests []*dest.Destination
 	for i := 0; i < nd; i++ {
